@@ -25,7 +25,7 @@ from report import Finding, VERIF
 TRANSC = {"sqrt", "sin", "cos", "tan", "atan2", "atan", "asin", "acos", "std::sqrt", "std::sin", "std::cos",
           "std::tan", "std::atan2"}
 TOL = {"C02": 1e-9, "C04": 1e-7, "C05": 1e-5}
-FILTERS = ["Impl", "detail::cos_", "detail::sin_"]
+FILTERS = ["Impl", "detail::cos_", "detail::sin_", "eps2"]
 
 
 def load_weights():
@@ -186,7 +186,7 @@ def analyse_site(site, weights):
         lhs, rhs = rhs, lhs
         op = {"<": ">", ">": "<", "<=": ">=", ">=": "<="}[op]
     # rhs is the threshold expression: Scalar(eps2) possibly scaled
-    thr_env = Env({"kind": "none"}, {"eps2": jet.Series.const(Fraction(1, 10 ** 8))})
+    thr_env = Env({"kind": "none"}, {"eps2": jet.Series.const(W_EPS2["value"])})
     thr = None
     try:
         thr_s = thr_env.ev(rhs)
@@ -238,6 +238,21 @@ def analyse_site(site, weights):
     }
 
 
+W_EPS2 = {"value": None}
+
+
+def find_eps2(idx):
+    """Value of the namespace-scope constant `eps2` (read from its initialiser in the AST)."""
+    for d in idx:
+        if d.kind == "VarDecl" and d.qname.split("::")[-1] == "eps2" and d.file and d.file.startswith(fe.INCLUDE):
+            init = [k for k in A.kids(d.node)]
+            if init:
+                e = A.to_expr(init[-1])
+                if e[0] == "num":
+                    return e[1]
+    raise fe.Broken("namespace-scope constant eps2 with a literal initialiser not found")
+
+
 def wfun(w):
     """weight entry {"c":..,"p":..} -> callable theta -> weight"""
     return lambda th: float(w["c"]) * th ** int(w.get("p", 0))
@@ -258,6 +273,7 @@ def run(rep, pid, idx=None):
         "J0/J1/J2: both branches of every small-angle switch abstracted into truncated series in the rotation angle "
         "and compared; violation only if sup|closed-series|*use_weight over theta<=theta* exceeds the property tolerance.")
     tol = TOL[pid]
+    W_EPS2["value"] = find_eps2(idx)
     sites = find_sites(idx)
     table = W["sites"]
     tails = W["tails"]
